@@ -189,10 +189,11 @@ class LRUCache(dict):
         return [i.value for i in dict.values(self)]
 
     def setdefault(self, key, value):
-        if key in self:
+        try:
             return self[key]
-        self[key] = value
-        return value
+        except KeyError:
+            self[key] = value
+            return value
 
     def __setitem__(self, key, value):
         item = dict.get(self, key)
